@@ -312,5 +312,419 @@ func (A *ownAnalysis) normalisedAt(ld *ssa.UnOp, s string) string {
 			return n.why
 		}
 	}
+	if S, f, ok := slotOf(ld.X); ok && fn != nil {
+		if why := A.establishedAt(fn, sliceRootOf(S), f, ld, false, 0); why != "" {
+			return why
+		}
+	}
 	return ""
+}
+
+// ---- normalisation across function boundaries -----------------------------------------
+//
+// The normalising loop, and the code that relies on it, may live in different
+// functions (savePathForRoot split into dirtyPath / relinkPath / root
+// assignment). Two more ways of establishing "every S[*].f is a dirty, hence
+// unshared, node" at an instruction are therefore recognised, both demanding
+// exactly what the local form demands:
+//
+//   - a dominating call of a *normaliser*: a function that runs a normalising
+//     loop (as recognised above) over its slice parameter, through which every
+//     return passes, and that leaves the slots and the flags alone afterwards;
+//   - S is a slice parameter of a private function all of whose callers are
+//     known, which itself leaves the slots and the flags alone, and at every
+//     call site the fact is established for the argument (by a local loop, a
+//     normaliser call, or — boundedly — that function's own callers).
+//
+// After the establishing point nothing may store into a slot (or a whole
+// element) of such a slice, write a dirty/shared flag, append/copy into such a
+// slice, capture it in a closure, or hand it to a callee that is not checked
+// to observe the same restrictions (unknown callee: refused).
+
+type normInter struct {
+	preserveMemo map[string]int // 1 computing, 2 yes, 3 no
+	summaryMemo  map[*ssa.Function][]normSummary
+	summaryBusy  map[*ssa.Function]bool
+	callerBusy   map[string]bool
+	wrapped      map[types.Object]bool // functions that also exist as a bound-method / thunk wrapper operand
+	invoked      map[string]bool       // method names called through an interface
+}
+
+type normSummary struct {
+	idx   int // index in Params of the slice whose elements are normalised
+	field string
+}
+
+var normInters = map[*ownAnalysis]*normInter{}
+
+func (A *ownAnalysis) inter() *normInter {
+	if x := normInters[A]; x != nil {
+		return x
+	}
+	x := &normInter{preserveMemo: map[string]int{}, summaryMemo: map[*ssa.Function][]normSummary{},
+		summaryBusy: map[*ssa.Function]bool{}, callerBusy: map[string]bool{},
+		wrapped: map[types.Object]bool{}, invoked: map[string]bool{}}
+	for _, fn := range A.F.P.Funcs {
+		for _, b := range fn.Blocks {
+			for _, ins := range b.Instrs {
+				if ci, ok := ins.(ssa.CallInstruction); ok && ci.Common().IsInvoke() {
+					x.invoked[ci.Common().Method.Name()] = true
+				}
+				for _, op := range ins.Operands(nil) {
+					if op == nil || *op == nil {
+						continue
+					}
+					if f, ok := (*op).(*ssa.Function); ok && f.Synthetic != "" && f.Object() != nil {
+						x.wrapped[f.Object()] = true
+					}
+				}
+			}
+		}
+	}
+	normInters[A] = x
+	return x
+}
+
+// slotOf: addr is the address of field f of an element of a slice S — &S[i].f,
+// or &e.f for a struct variable e initialised exactly once by copying S[i]
+// (the forwarding addrSym performs).
+func slotOf(addr ssa.Value) (S ssa.Value, field string, ok bool) {
+	fa, isFA := addr.(*ssa.FieldAddr)
+	if !isFA {
+		return nil, "", false
+	}
+	field = ir.FieldName(fa.X.Type(), fa.Field)
+	var ia *ssa.IndexAddr
+	switch x := fa.X.(type) {
+	case *ssa.IndexAddr:
+		ia = x
+	case *ssa.Alloc:
+		if x.Referrers() == nil {
+			return nil, "", false
+		}
+		var st *ssa.Store
+		for _, r := range *x.Referrers() {
+			switch y := r.(type) {
+			case *ssa.Store:
+				if y.Addr != x || st != nil {
+					return nil, "", false
+				}
+				st = y
+			case *ssa.FieldAddr, *ssa.DebugRef, *ssa.UnOp:
+			default:
+				return nil, "", false
+			}
+		}
+		if st == nil {
+			return nil, "", false
+		}
+		ld, isLd := st.Val.(*ssa.UnOp)
+		if !isLd || ld.Op != token.MUL {
+			return nil, "", false
+		}
+		ia, _ = ld.X.(*ssa.IndexAddr)
+	}
+	if ia == nil {
+		return nil, "", false
+	}
+	if _, isSlice := ia.X.Type().Underlying().(*types.Slice); !isSlice {
+		return nil, "", false
+	}
+	return ia.X, field, true
+}
+
+// sliceRootOf strips reslicing and the cell of a captured variable.
+func sliceRootOf(v ssa.Value) ssa.Value {
+	for i := 0; i < 8; i++ {
+		s, ok := v.(*ssa.Slice)
+		if !ok {
+			break
+		}
+		v = s.X
+	}
+	return ir.ResolveCell(v)
+}
+
+func sliceElem(v ssa.Value) types.Type {
+	if v == nil {
+		return nil
+	}
+	if st, ok := v.Type().Underlying().(*types.Slice); ok {
+		return st.Elem()
+	}
+	return nil
+}
+
+// carriesElems: a value of type t can give a callee access to elements of a
+// []elemT (the slice, a pointer to it, a pointer to an element, an array of them).
+func carriesElems(t types.Type, elemT types.Type, d int) bool {
+	if t == nil || d > 3 {
+		return false
+	}
+	if types.Identical(t, elemT) {
+		return false // an element by value is a copy
+	}
+	switch u := t.Underlying().(type) {
+	case *types.Slice:
+		return types.Identical(u.Elem(), elemT) || carriesElems(u.Elem(), elemT, d+1)
+	case *types.Array:
+		return false
+	case *types.Pointer:
+		return types.Identical(u.Elem(), elemT) || carriesElems(u.Elem(), elemT, d+1)
+	}
+	return false
+}
+
+// instrPreserves: executing ins cannot undo "every element's .field of a
+// []elemT is a dirty node" (see the list above).
+func (A *ownAnalysis) instrPreserves(ins ssa.Instruction, elemT types.Type, field string) bool {
+	switch x := ins.(type) {
+	case *ssa.Store:
+		if pt, ok := x.Addr.Type().Underlying().(*types.Pointer); ok && types.Identical(pt.Elem(), elemT) {
+			if _, local := x.Addr.(*ssa.Alloc); !local {
+				return false // whole element overwritten
+			}
+		}
+		if _, isSlice := x.Val.Type().Underlying().(*types.Slice); isSlice && carriesElems(x.Val.Type(), elemT, 0) {
+			if _, local := x.Addr.(*ssa.Alloc); !local {
+				return false // the slice is published somewhere
+			}
+		}
+		if fa, ok := x.Addr.(*ssa.FieldAddr); ok {
+			if pt, ok := fa.X.Type().Underlying().(*types.Pointer); ok && types.Identical(pt.Elem(), elemT) &&
+				ir.FieldName(fa.X.Type(), fa.Field) == field {
+				return false // a slot is overwritten
+			}
+			if isNodePtr(fa.X.Type()) {
+				if nm := ir.FieldName(fa.X.Type(), fa.Field); nm == "dirty" || nm == "shared" {
+					return false
+				}
+			}
+		}
+		if isNodePtr(x.Addr.Type()) {
+			return false // whole node overwritten
+		}
+	case *ssa.MakeClosure:
+		for _, b := range x.Bindings {
+			if carriesElems(b.Type(), elemT, 0) {
+				return false
+			}
+		}
+	case ssa.CallInstruction:
+		com := x.Common()
+		carries := false
+		for _, a := range com.Args {
+			if carriesElems(a.Type(), elemT, 0) {
+				carries = true
+			}
+		}
+		if !carries {
+			return true
+		}
+		if b, ok := com.Value.(*ssa.Builtin); ok {
+			return b.Name() == "len" || b.Name() == "cap"
+		}
+		if _, ok := x.(*ssa.Call); !ok {
+			return false // go / defer: runs at another time
+		}
+		cs := A.F.Callees(x)
+		if len(cs) == 0 || com.IsInvoke() {
+			return false
+		}
+		for _, c := range cs {
+			if !A.preserves(c, elemT, field) {
+				return false
+			}
+		}
+	}
+	return true
+}
+
+func (A *ownAnalysis) preserves(fn *ssa.Function, elemT types.Type, field string) bool {
+	x := A.inter()
+	key := fn.String() + "|" + types.TypeString(elemT, nil) + "|" + field
+	switch x.preserveMemo[key] {
+	case 1, 2:
+		return true // coinductive for recursion
+	case 3:
+		return false
+	}
+	if fn.Blocks == nil {
+		x.preserveMemo[key] = 3
+		return false
+	}
+	x.preserveMemo[key] = 1
+	ok := true
+	for _, b := range fn.Blocks {
+		for _, ins := range b.Instrs {
+			if !A.instrPreserves(ins, elemT, field) {
+				ok = false
+			}
+		}
+	}
+	for _, an := range fn.AnonFuncs {
+		if !A.preserves(an, elemT, field) {
+			ok = false
+		}
+	}
+	if ok {
+		x.preserveMemo[key] = 2
+	} else {
+		x.preserveMemo[key] = 3
+	}
+	return ok
+}
+
+// cleanAfter: every instruction that can execute after the establishing point
+// (the start of block blk, or the instruction `after` inside it) and before a
+// use it dominates preserves the fact.
+func (A *ownAnalysis) cleanAfter(fn *ssa.Function, blk *ssa.BasicBlock, after ssa.Instruction, elemT types.Type, field string) bool {
+	for _, b := range fn.Blocks {
+		if !blk.Dominates(b) {
+			continue
+		}
+		for _, ins := range b.Instrs {
+			if b == blk && after != nil && (ins == after || ir.Before(ins, after)) {
+				continue
+			}
+			if !A.instrPreserves(ins, elemT, field) {
+				return false
+			}
+		}
+	}
+	return true
+}
+
+// normaliserSummaries: the slice parameters of fn whose elements' node field
+// is normalised whenever fn returns.
+func (A *ownAnalysis) normaliserSummaries(fn *ssa.Function) []normSummary {
+	x := A.inter()
+	if r, ok := x.summaryMemo[fn]; ok {
+		return r
+	}
+	if x.summaryBusy[fn] || fn.Blocks == nil {
+		return nil
+	}
+	x.summaryBusy[fn] = true
+	defer delete(x.summaryBusy, fn)
+	var out []normSummary
+	rets := ir.Returns(fn)
+	for _, n := range A.normalisedLoops(fn) {
+		idx := -1
+		for i, p := range fn.Params {
+			if sliceElem(p) != nil && ir.Sym(p) == n.slice && ir.ResolveCell(p) == ssa.Value(p) {
+				idx = i
+			}
+		}
+		if idx < 0 || len(rets) == 0 || len(n.exit.Preds) != 1 {
+			continue
+		}
+		all := true
+		for _, r := range rets {
+			if !n.exit.Dominates(r.Block()) {
+				all = false
+			}
+		}
+		if !all || !A.cleanAfter(fn, n.exit, nil, sliceElem(fn.Params[idx]), n.field) {
+			continue
+		}
+		out = append(out, normSummary{idx: idx, field: n.field})
+	}
+	x.summaryMemo[fn] = out
+	return out
+}
+
+// callersKnown: fn is a private, named function that is only ever called
+// directly (never used as a value, never reached through an interface).
+func (A *ownAnalysis) callersKnown(fn *ssa.Function) bool {
+	x := A.inter()
+	if fn.Parent() != nil || fn.Synthetic != "" || fn.Object() == nil || fn.Object().Exported() {
+		return false
+	}
+	if A.F.addrTaken[fn] || x.wrapped[fn.Object()] {
+		return false
+	}
+	if fn.Signature.Recv() != nil && x.invoked[fn.Name()] {
+		return false
+	}
+	return len(A.rcallers[fn]) > 0
+}
+
+// establishedAt: at instruction `at` of fn every S[*].field is a dirty node.
+// S is a slice root (sliceRootOf). local=false skips the purely local form,
+// which normalisedAt has already tried.
+func (A *ownAnalysis) establishedAt(fn *ssa.Function, S ssa.Value, field string, at ssa.Instruction, local bool, depth int) string {
+	elemT := sliceElem(S)
+	if elemT == nil || fn == nil || at == nil || at.Block() == nil {
+		return ""
+	}
+	if local {
+		for _, n := range A.normalisedLoops(fn) {
+			if n.slice != ir.Sym(S) || n.field != field || len(n.exit.Preds) != 1 || !n.exit.Dominates(at.Block()) {
+				continue
+			}
+			if A.cleanAfter(fn, n.exit, nil, elemT, field) {
+				return n.why
+			}
+		}
+	}
+	// a dominating call of a normaliser
+	for _, b := range fn.Blocks {
+		if !b.Dominates(at.Block()) {
+			continue
+		}
+		for _, ins := range b.Instrs {
+			call, ok := ins.(*ssa.Call)
+			if !ok || call.Common().IsInvoke() {
+				continue
+			}
+			if b == at.Block() && !ir.Before(call, at) {
+				continue
+			}
+			cs := A.F.Callees(call)
+			if len(cs) == 0 {
+				continue
+			}
+			args := call.Common().Args
+			hit := true
+			for _, c := range cs {
+				found := false
+				for _, sm := range A.normaliserSummaries(c) {
+					if sm.field == field && sm.idx < len(args) && sliceRootOf(args[sm.idx]) == S {
+						found = true
+					}
+				}
+				if !found {
+					hit = false
+				}
+			}
+			if !hit || !A.cleanAfter(fn, b, call, elemT, field) {
+				continue
+			}
+			return "every " + ir.Sym(S) + "[*]." + field + " was made dirty/unshared by the normalising loop of " + ir.FuncName(cs[0]) + ", called at " + A.F.P.InstrPos(call)
+		}
+	}
+	// established by every caller
+	p, isParam := S.(*ssa.Parameter)
+	if !isParam || p.Parent() != fn || depth >= 3 || !A.callersKnown(fn) || !A.preserves(fn, elemT, field) {
+		return ""
+	}
+	x := A.inter()
+	key := fn.String() + "|" + p.Name() + "|" + field
+	if x.callerBusy[key] {
+		return ""
+	}
+	x.callerBusy[key] = true
+	defer delete(x.callerBusy, key)
+	idx := paramIndex(p)
+	for _, cs := range A.rcallers[fn] {
+		call, ok := cs.(*ssa.Call)
+		if !ok || idx >= len(call.Common().Args) || call.Common().IsInvoke() {
+			return ""
+		}
+		if A.establishedAt(call.Parent(), sliceRootOf(call.Common().Args[idx]), field, call, true, depth+1) == "" {
+			return ""
+		}
+	}
+	return "every " + ir.Sym(S) + "[*]." + field + " is a dirty/unshared node at every call of " + ir.FuncName(fn) + " (normalised by its callers)"
 }
